@@ -118,3 +118,14 @@ def unit_hashtype_str():
     f = block('debugger/interpreter.h', r'^static inline std::string hashtype_str\(int h\) \{', trailing=None)
     t += f
     return t + '\n#include "h_hashtype.h"\n'
+
+def unit_jacobi_head():
+    """Value::do_jacobi_symbol (value.cpp), argument handling up to the first reduction `n = n % k` (R-PARTIAL: the symbol loop on 256-bit
+    numbers that follows is number theory)"""
+    t = '#include "verif_std.h"\n#include "jacobi_env.h"\n'
+    t += between('value.cpp', r'^#define abort\(msg\.\.\.\) ', r'^', include_end=False)
+    frag = between('value.cpp', r'^void Value::do_jacobi_symbol\(\) \{$', r'^    while \(n\.bits\(\) > 0\) \{$', include_end=False)
+    frag = rewrite(frag, [(r'void Value::do_jacobi_symbol\(\) \{', 'void Value::jacobi_head() {', 1),
+                          (r'n = n % k;', 'n = n.operator%(k);', 1)])      # R-OPCALL: overloaded binary % on class operands is not resolved by the front end
+    t += rewrite(frag, R_TYPES) + '    g_jacobi_head_done = 1;\n}\n'
+    return t + '\n#include "h_jacobi.h"\n'
